@@ -12,7 +12,7 @@ git apply $src/patch.diff || { echo "$sid: patch does not apply"; exit 2; }
 go build ./... || { echo "$sid: does not compile"; exit 2; }
 suite=fail
 for try in 1 2 3; do
-  if go test -vet=off -count=1 -timeout 25m ./... >/tmp/sv_$sid.suite.log 2>&1; then suite=pass; break; fi
+  if flock /tmp/spec_suite.lock go test -vet=off -count=1 -timeout 25m ./... >/tmp/sv_$sid.suite.log 2>&1; then suite=pass; break; fi
   grep -q "address already in use" /tmp/sv_$sid.suite.log || break
   sleep 5
 done
